@@ -308,3 +308,45 @@ Proof.
   destruct (BInvL_same_fr L L a (norm a) Hinv Hs' eq_refl Hfr) as [H1 H2].
   split; [exact H1|]. split; assumption.
 Qed.
+
+(* ---------------------------------------------------------------- an executable check of the size side conditions *)
+
+Definition uwfb (u : U64) : bool := (nlen (ubits u) mod 64 =? 0) && (ulen u <=? nlen (ubits u)).
+Definition bt_smallb (t : Btree) : bool :=
+  (nlen (bt_to_vec t) <? 2 ^ 32) && forallb (fun u => uwfb u && (ulen u <? 2 ^ 32)) t.
+Definition buddy_smallb (a : Buddy) : bool :=
+  (nlen (buddy_to_vec a) <? 2 ^ 32) && (blen a <? 2 ^ 32) && (bmax a <? 256) && forallb bt_smallb (bfree a).
+
+Lemma uwfb_sound u : uwfb u = true -> uwf u.
+Proof.
+  unfold uwfb. rewrite andb_true_iff, N.eqb_eq, N.leb_le. intros [H1 H2].
+  exists (nlen (ubits u) / 64). pose proof (N.div_mod (nlen (ubits u)) 64 ltac:(lia)) as E.
+  rewrite H1, N.add_0_r in E. rewrite <- E. split; [reflexivity|exact H2].
+Qed.
+
+Lemma bt_smallb_sound t : bt_smallb t = true -> bt_small t.
+Proof.
+  unfold bt_smallb. rewrite andb_true_iff, N.ltb_lt, forallb_forall. intros [H1 H2].
+  split; [exact H1|]. apply Forall_forall. intros u Hu. specialize (H2 u Hu).
+  apply andb_true_iff in H2. destruct H2 as [H2 H3]. split; [now apply uwfb_sound|now apply N.ltb_lt].
+Qed.
+
+Lemma buddy_smallb_sound a : buddy_smallb a = true -> buddy_small a.
+Proof.
+  unfold buddy_smallb. rewrite !andb_true_iff, !N.ltb_lt, forallb_forall. intros [[[H1 H2] H3] H4].
+  split; [exact H1|]. split; [exact H2|]. split; [exact H3|].
+  apply Forall_forall. intros t Ht. apply bt_smallb_sound. now apply H4.
+Qed.
+
+(* saving and reloading keeps the invariant, every mark, the free space, and the serialised bytes *)
+Lemma roundtrip_spec a :
+  BInv a -> buddy_small a ->
+  let a' := buddy_from_bytes (buddy_to_vec a) in
+  BInv a' /\ blen a' = blen a /\ bmax a' = bmax a /\ (forall k i, fr a' k i = fr a k i)
+  /\ (forall p, pfree a' p <-> pfree a p) /\ buddy_to_vec a' = buddy_to_vec a.
+Proof.
+  intros H Hs. pose proof H as ([Hn _] & _). cbv zeta. rewrite (buddy_roundtrip a Hs Hn).
+  destruct (norm_spec (blen a) a H) as (N1 & N2 & N3).
+  split; [exact N1|]. split; [reflexivity|]. split; [reflexivity|]. split; [exact N2|]. split; [exact N3|].
+  apply buddy_to_vec_norm.
+Qed.
